@@ -325,9 +325,12 @@ Definition m_copy (R : stack) (src dst : path) : option stack :=
   | [], _ | _, [] => None
   | _, _ :: dpar =>
       match status R src, status R dst with
-      | Some _, None =>
+      | Some (_, esrc), None =>
           let S := rel_snap (viewmap R) src in
-          match m_mkgroups true R dpar with
+          (* a group is copied through [create_group] (every missing ancestor becomes an
+             overwrite group), a dataset through [create_dataset] (only the first one) *)
+          let deep := match esrc with RGroup _ => true | _ => false end in
+          match m_mkgroups deep R dpar with
           | None => None
           | Some (R1, _) =>
               let M : cont := to_raw (is_patch R1) <$> t_graft_snap S dst in
